@@ -84,7 +84,7 @@ def selftest(tier: str, seed: int) -> int:
         # ---- (iv) equivalent changes: every check must stay silent
         out = subprocess.run([os.path.join(VERIF, 'tools', 'try_equivalent.sh')], capture_output=True, text=True).stdout
         lines = [l for l in out.splitlines() if ' exit=' in l]
-        report(f'equivalent changes (equivalent/patch.diff): {sum(1 for l in lines if " exit=0 " in l)} of {len(lines)} checks silent', len(lines) == 20 and all(' exit=0 ' in l for l in lines))
+        report(f'equivalent changes (equivalent/patch*.diff): {sum(1 for l in lines if " exit=0 " in l)} of {len(lines)} check runs silent', len(lines) >= 20 and len(lines) % 20 == 0 and all(' exit=0 ' in l for l in lines))
         # ---- (v) the judge of rendered numbers against the definition it implements (exhaustive on a bounded domain, ~6 min single-threaded)
         from .tlc import TLCRun
         run = TLCRun(module='MC_Display.tla', cfg='MC_Display.cfg', workers=4)
